@@ -1,7 +1,8 @@
 /-
-  Block arrays nested inside other pytrees (C13, round 2): jax's `tree_flatten` / `tree_unflatten`
-  recursion over standard containers (tuple / list / dict — children kept as they are) and the
-  registered `BlockArray` node (children = its blocks, rebuilt with `treeUnflatten`).
+  Block arrays nested inside other pytrees — and pytrees nested inside block arrays — (C13, rounds 2–3):
+  jax's `tree_flatten` / `tree_unflatten` recursion over standard containers (tuple / list / dict:
+  children kept as they are) and the registered `BlockArray` node (children rebuilt first, then the
+  registered `_unflatten`: constructor when every child is an array, otherwise stored untouched).
 -/
 import Scico.Proofs.Block
 
@@ -9,27 +10,91 @@ namespace Scico.Block
 
 variable {α δ : Type}
 
-/-- a block node the registered `unflatten` accepts: some leaf is not an array (placeholders), or
-    all are arrays of one dtype -/
-def BlkOk (E : Env α δ) (bs : List α) : Prop := bs.all E.isArr = false ∨ WF E bs
+/-- when every child is an array, the children are exactly their leaf values -/
+theorem all_childArr_eq (E : Env α δ) : ∀ (ts : List (PT α)), ts.all (childArr E) = true →
+    ts = (leafVals ts).map PT.leaf ∧ ∀ a ∈ leafVals ts, E.isArr a = true
+  | [], _ => ⟨rfl, by simp [leafVals]⟩
+  | .leaf a :: cs, h => by
+    simp only [List.all_cons, Bool.and_eq_true, childArr] at h
+    obtain ⟨e, h2⟩ := all_childArr_eq E cs h.2
+    refine ⟨by simp only [leafVals, List.map_cons]; rw [← e], ?_⟩
+    intro x hx
+    simp only [leafVals, List.mem_cons] at hx
+    rcases hx with rfl | hx
+    · exact h.1
+    · exact h2 x hx
+  | .tup _ :: cs, h => by simp [childArr] at h
+  | .blk _ :: cs, h => by simp [childArr] at h
+
+/-- the constructor on arrays returns them as they are (or rejects mixed dtypes) -/
+theorem mkBlock_eq_of_arrays [DecidableEq δ] (E : Env α δ) {l b : List α}
+    (harr : ∀ a ∈ l, E.isArr a = true) (h : mkBlock E l = .ok b) : b = l := by
+  obtain ⟨hlen, _, hget⟩ := mkFrom_ok E h
+  apply List.ext_getElem hlen
+  intro i h1 h2
+  obtain ⟨z, hz, hc⟩ := hget i h2 h1
+  simp only [Except.ok.injEq] at hz
+  subst hz
+  rw [coerce_arr E (harr _ (List.getElem_mem h2))] at hc
+  exact (Except.ok.inj hc).symm
+
+/-- the registered `_unflatten` never changes its children -/
+theorem unflattenNode_eq [DecidableEq δ] (E : Env α δ) {ts : List (PT α)} {t : PT α}
+    (h : unflattenNode E ts = .ok t) : t = .blk ts := by
+  unfold unflattenNode at h
+  by_cases hall : ts.all (childArr E) = true
+  · simp only [hall, if_true] at h
+    obtain ⟨e, harr⟩ := all_childArr_eq E ts hall
+    cases hm : mkBlock E (leafVals ts) with
+    | error e' => simp [hm] at h
+    | ok vs =>
+      simp only [hm, Except.ok.injEq] at h
+      rw [← h, mkBlock_eq_of_arrays E harr hm, ← e]
+  · simp only [hall] at h
+    exact (Except.ok.inj h).symm
+
+/-- a block node the registered `_unflatten` accepts: some child is not an array (a placeholder, a
+    nested block array, a tuple), or all are arrays of one dtype -/
+def BlkOk (E : Env α δ) (ts : List (PT α)) : Prop :=
+  ts.all (childArr E) = false ∨ WF E (leafVals ts)
+
+theorem unflattenNode_ok [DecidableEq δ] (E : Env α δ) {ts : List (PT α)} (h : BlkOk E ts) :
+    unflattenNode E ts = .ok (.blk ts) := by
+  unfold unflattenNode
+  rcases h with h | h
+  · simp [h]
+  · by_cases hall : ts.all (childArr E) = true
+    · obtain ⟨e, _⟩ := all_childArr_eq E ts hall
+      simp only [hall, if_true, mkBlock_wf E h]
+      rw [← e]
+    · simp [hall]
+
+/-- the only way the registered `_unflatten` rejects: all children arrays, dtypes differ -/
+theorem unflattenNode_error [DecidableEq δ] (E : Env α δ) {ts : List (PT α)} {e : Err}
+    (h : unflattenNode E ts = .error e) :
+    e = .dtype ∧ ts.all (childArr E) = true ∧ ¬ Homog E (leafVals ts) := by
+  unfold unflattenNode at h
+  by_cases hall : ts.all (childArr E) = true
+  · simp only [hall, if_true] at h
+    obtain ⟨_, harr⟩ := all_childArr_eq E ts hall
+    by_cases hh : Homog E (leafVals ts)
+    · rw [mkBlock_wf E ⟨harr, hh⟩] at h; cases h
+    · have := mkFrom_hetero E (g := Except.ok) (h := id) (xs := leafVals ts) (fun _ _ => rfl) harr (by simpa using hh)
+      simp only [mkBlock] at h
+      rw [this] at h
+      exact ⟨(Except.error.inj h).symm, hall, hh⟩
+  · simp [hall] at h
 
 mutual
 /-- every block array node of the tree is acceptable -/
 def PT.Ok (E : Env α δ) : PT α → Prop
   | .leaf _ => True
   | .tup cs => OkL E cs
-  | .blk bs => BlkOk E bs
+  | .blk bs => OkL E bs ∧ BlkOk E bs
 def OkL (E : Env α δ) : List (PT α) → Prop
   | [] => True
   | c :: cs => c.Ok E ∧ OkL E cs
 end
-
-theorem treeUnflatten_ok [DecidableEq δ] (E : Env α δ) {bs : List α} (h : BlkOk E bs) :
-    treeUnflatten E () bs = .ok bs := by
-  rcases h with h | h
-  · simp [treeUnflatten, h]
-  · have : bs.all E.isArr = true := List.all_eq_true.2 h.1
-    simp [treeUnflatten, this, mkBlock_wf E h]
 
 mutual
 /-- `tree_unflatten(tree_structure(t), tree_leaves(t)) = t`, also with further leaves behind -/
@@ -40,8 +105,9 @@ theorem unflat_leaves [DecidableEq δ] (E : Env α δ) : ∀ (t : PT α) (rest :
     have := unflatL_leaves E cs rest (by simpa [PT.Ok] using h)
     simp [PT.struct, PT.leaves, unflat, this]
   | .blk bs, rest, h => by
-    have hb : BlkOk E bs := by simpa [PT.Ok] using h
-    simp [PT.struct, PT.leaves, unflat, treeUnflatten_ok E hb]
+    have h' : OkL E bs ∧ BlkOk E bs := by simpa [PT.Ok] using h
+    have := unflatL_leaves E bs rest h'.1
+    simp [PT.struct, PT.leaves, unflat, this, unflattenNode_ok E h'.2]
 theorem unflatL_leaves [DecidableEq δ] (E : Env α δ) : ∀ (cs : List (PT α)) (rest : List α), OkL E cs →
     unflatL E (structL cs) (leavesL cs ++ rest) = .ok (cs, rest)
   | [], rest, _ => by simp [structL, leavesL, unflatL]
@@ -51,23 +117,6 @@ theorem unflatL_leaves [DecidableEq δ] (E : Env α δ) : ∀ (cs : List (PT α)
     have h2 := unflatL_leaves E cs rest h'.2
     simp [structL, leavesL, unflatL, List.append_assoc, h1, h2]
 end
-
-theorem treeUnflatten_eq [DecidableEq δ] (E : Env α δ) {l b : List α}
-    (h : treeUnflatten E () l = .ok b) : b = l := by
-  unfold treeUnflatten at h
-  by_cases hall : l.all E.isArr = true
-  · simp only [hall, if_true] at h
-    obtain ⟨hlen, _, hget⟩ := mkFrom_ok E h
-    apply List.ext_getElem hlen
-    intro i h1 h2
-    obtain ⟨z, hz, hc⟩ := hget i h2 h1
-    simp only [Except.ok.injEq] at hz
-    subst hz
-    have : E.isArr l[i] = true := List.all_eq_true.1 hall _ (List.getElem_mem h2)
-    rw [coerce_arr E this] at hc
-    exact (Except.ok.inj hc).symm
-  · simp only [hall] at h
-    exact (Except.ok.inj h).symm
 
 mutual
 /-- whatever `tree_unflatten` returns has the requested structure and exactly the consumed leaves, in
@@ -94,21 +143,20 @@ theorem unflat_sound [DecidableEq δ] (E : Env α δ) : ∀ (s : PT Unit) (l : L
       simp [PT.struct, PT.leaves, h1, h2]
   | .blk us, l, t, r, h => by
     simp only [unflat] at h
-    by_cases hlen : l.length < us.length
-    · simp [hlen] at h
-    · simp only [hlen, if_false] at h
-      cases hb : treeUnflatten E () (l.take us.length) with
-      | error e => simp [hb] at h
-      | ok b =>
-        simp only [hb, Except.ok.injEq, Prod.mk.injEq] at h
+    cases hc : unflatL E us l with
+    | error e => simp [hc] at h
+    | ok p =>
+      obtain ⟨ts, r'⟩ := p
+      simp only [hc] at h
+      cases hn : unflattenNode E ts with
+      | error e => simp [hn] at h
+      | ok t' =>
+        simp only [hn, Except.ok.injEq, Prod.mk.injEq] at h
         obtain ⟨rfl, rfl⟩ := h
-        have hbe := treeUnflatten_eq E hb
-        subst hbe
-        refine ⟨?_, by simp [PT.leaves]⟩
-        simp only [PT.struct, PT.blk.injEq]
-        apply List.ext_getElem
-        · simp; omega
-        · intro i h1 h2; rfl
+        have := unflattenNode_eq E hn
+        subst this
+        obtain ⟨h1, h2⟩ := unflatL_sound E us l ts r' hc
+        simp [PT.struct, PT.leaves, h1, h2]
 theorem unflatL_sound [DecidableEq δ] (E : Env α δ) : ∀ (cs : List (PT Unit)) (l : List α)
     (ts : List (PT α)) (r : List α),
     unflatL E cs l = .ok (ts, r) → structL ts = cs ∧ leavesL ts ++ r = l
@@ -139,7 +187,7 @@ mutual
 theorem struct_leaves_length : ∀ (t : PT α), t.struct.leaves.length = t.leaves.length
   | .leaf _ => rfl
   | .tup cs => by simpa [PT.struct, PT.leaves] using structL_leaves_length cs
-  | .blk bs => by simp [PT.struct, PT.leaves]
+  | .blk bs => by simpa [PT.struct, PT.leaves] using structL_leaves_length bs
 theorem structL_leaves_length : ∀ (cs : List (PT α)), (leavesL (structL cs)).length = (leavesL cs).length
   | [] => rfl
   | c :: cs => by simp [structL, leavesL, struct_leaves_length c, structL_leaves_length cs]
